@@ -288,6 +288,13 @@ def optM {β : Type} (f : St → WVal → Outcome (St × β)) (st : St) : Option
     | .err e => .err e
     | .panic p => .panic p
 
+/-- `|(name, ty)| Ok((name, f(ty)?))` -/
+def namedM {α β : Type} (g : St → α → Outcome (St × β)) (st : St) (nv : Str × α) : Outcome (St × (Str × β)) :=
+  match g st nv.2 with
+  | .ok (st, v) => .ok (st, (nv.1, v))
+  | .err e => .err e
+  | .panic p => .panic p
+
 /-- build an `IndexMap` from pairs (a later duplicate key overwrites in place) -/
 def collectMap {β : Type} (xs : List (Str × β)) : List (Str × β) :=
   xs.foldl (fun m (kv : Str × β) => alInsert m kv.1 kv.2) []
@@ -316,14 +323,12 @@ def definedType (w : WTypes) : Nat → St → Nat → Outcome (St × ValueType)
         match e.body with
         | .prim p => finish st (.alias (.prim p))
         | .record fs =>
-          match loopM (fun st (nv : Str × WVal) => match val st nv.2 with
-              | .ok (st, v) => .ok (st, (nv.1, v)) | .err e => .err e | .panic p => .panic p) st fs with
+          match loopM (namedM val) st fs with
           | .ok (st, fs) => finish st (.record (collectMap fs))
           | .err e => .err e
           | .panic p => .panic p
         | .variant cs =>
-          match loopM (fun st (nv : Str × Option WVal) => match optM val st nv.2 with
-              | .ok (st, v) => .ok (st, (nv.1, v)) | .err e => .err e | .panic p => .panic p) st cs with
+          match loopM (namedM (optM val)) st cs with
           | .ok (st, cs) => finish st (.variant (collectMap cs))
           | .err e => .err e
           | .panic p => .panic p
@@ -394,8 +399,7 @@ def funcType (w : WTypes) (fuel : Nat) (st : St) (f : Nat) : Outcome (St × Nat)
     match w.funcs[f]? with
     | none => .panic "component_func_type: dangling id"
     | some ft =>
-      match loopM (fun st (nv : Str × WVal) => match valType w fuel st nv.2 with
-          | .ok (st, v) => .ok (st, (nv.1, v)) | .err e => .err e | .panic p => .panic p) st ft.params with
+      match loopM (namedM (valType w fuel)) st ft.params with
       | .ok (st, ps) =>
         match optM (valType w fuel) st ft.result with
         | .ok (st, r) =>
